@@ -403,6 +403,16 @@ class Contract:
     def apply_at_call(self, it, fi, self_val, ca):
         st = it.st
         caller = it.call_stack[-1] if it.call_stack else '<entry>'
+        # a parameter the function did not have when the contract was written: the contract (verified with that parameter at
+        # its default) does not cover a call that passes it -- the body is inlined instead (see call_function)
+        from . import alpha
+        added = alpha.new_params(fi.module.path, fi.qualname, fi.node)
+        if added:
+            pos = [x.arg for x in fi.node.args.posonlyargs + fi.node.args.args]
+            n_pos = len(ca.args) + (0 if (fi.is_static or self_val is None) else 1)
+            passed = [x for x in added if x in (ca.kwargs or {}) or (x in pos and pos.index(x) < n_pos)]
+            if passed or ca.starmaps:
+                raise AssertionError(f'the call passes {passed or "**kwargs"}, which the contract of {self.name} does not know')
         a = self.bind(it, fi, self_val, ca)
         pre = st.snapshot()
         for n, f in self.requires(it, pre, a):
